@@ -385,6 +385,8 @@ class Executor:
             return getattr(_string, attr)
         if modname in ('logging', 'warnings', 'typing'):
             return Opaque(key)
+        if modname == 'os' and attr == 'PathLike':
+            return PyClassRef('PathLike')
         if modname == 'decimal' and attr == 'Decimal':
             return BUILTINS['decimal.Decimal']
         if modname == 'pathlib' and attr == 'Path':
